@@ -539,15 +539,16 @@ VF_ENUM(key_check, 1845, 8000) {
 
 // (5b) altered modulus far beyond the key size: check() must refuse (not crash).  Kept in a sub-property of its own
 // because verify() sizes a buffer as mnsize+1024 bytes for a value of up to 2*mnsize bytes.
-VF_ENUM(oversized_modulus_refused, 5, 8) {
+VF_ENUM(oversized_modulus_refused, 16, 32) {
   static const unsigned bitsv[] = {4100, 8199, 8201, 9001, 12289, 16383, 16391, 20001};
-  size_t i = ctx.c.raw(); if (i >= 8) { ctx.discard(); return; } unsigned bits = bitsv[i];
+  size_t i = ctx.c.raw(); unsigned bits = bitsv[i % 8];
   Key &K = get_key(672, false, 0); TextObj o = K.pub;
   Z m2 = zrand_bits(ctx, bits) | 1; mpz_setbit(m2.get_mpz_t(), bits - 1);
   while (mpz_jacobi(K.y.get_mpz_t(), m2.get_mpz_t()) != 1 || mpz_probab_prime_p(m2.get_mpz_t(), 5)) m2 += 2;
-  o.f[4] = z62(m2);
-  ctx.desc << K.desc() << " public key with the modulus replaced by an odd composite of " << mpz_sizeinbase(m2.get_mpz_t(), 2) << " bits (Jacobi symbol of y is 1)";
-  ctx.label("bits=" + std::to_string(bits)); ctx.nontrivial("bits" + std::to_string(bits));
+  o.f[4] = z62(m2); bool bigsig = ctx.c.prob(3, 4);
+  if (bigsig) { o.f[9] = z62(zrand_below(ctx, m2)); o.f[8] = "ID8^" + o.f[9].substr(o.f[9].size() - 8); } // a self-signature value as long as the new modulus, with the key id that belongs to it
+  ctx.desc << K.desc() << " public key with the modulus replaced by an odd composite of " << mpz_sizeinbase(m2.get_mpz_t(), 2) << " bits (Jacobi symbol of y is 1)" << (bigsig ? " and the self-signature value by a random value below it" : "");
+  ctx.label("bits=" + std::to_string(bits)); ctx.nontrivial("bits" + std::to_string(bits) + (bigsig ? "s" : ""));
   std::string stage; if (key_accepted(join(o), stage)) ctx.fail("tamper/public-key/modulus/oversized-accepted", ctx.desc.str());
 }
 
